@@ -122,4 +122,71 @@ structure CheckRequest where
 def CheckRequest.GetAttributes (r : CheckRequest) : AttributeContext :=
   if r.isNil then { isNil := true } else r.Attributes
 
+/-! ### config/v1/oidc: TokenConfig, LogoutConfig, OIDCConfig (the fields the translated functions read) -/
+
+structure TokenConfig where
+  isNil : Bool := false
+  Header : Str := []
+  Preamble : Str := []
+  deriving Repr, BEq, DecidableEq
+def TokenConfig.GetHeader (t : TokenConfig) : Str := if t.isNil then [] else t.Header
+def TokenConfig.GetPreamble (t : TokenConfig) : Str := if t.isNil then [] else t.Preamble
+
+structure LogoutConfig where
+  isNil : Bool := false
+  Path : Str := []
+  RedirectUri : Str := []
+  deriving Repr, BEq, DecidableEq
+def LogoutConfig.GetPath (t : LogoutConfig) : Str := if t.isNil then [] else t.Path
+def LogoutConfig.GetRedirectUri (t : LogoutConfig) : Str := if t.isNil then [] else t.RedirectUri
+
+structure OIDCConfig where
+  isNil : Bool := false
+  CallbackUri : Str := []
+  CookieNamePrefix : Str := []
+  IdToken : TokenConfig := { isNil := true }
+  AccessToken : TokenConfig := { isNil := true }
+  Logout : LogoutConfig := { isNil := true }
+  deriving Repr, BEq, DecidableEq
+def OIDCConfig.GetCallbackUri (c : OIDCConfig) : Str := if c.isNil then [] else c.CallbackUri
+def OIDCConfig.GetCookieNamePrefix (c : OIDCConfig) : Str := if c.isNil then [] else c.CookieNamePrefix
+def OIDCConfig.GetIdToken (c : OIDCConfig) : TokenConfig := if c.isNil then { isNil := true } else c.IdToken
+def OIDCConfig.GetAccessToken (c : OIDCConfig) : TokenConfig := if c.isNil then { isNil := true } else c.AccessToken
+def OIDCConfig.GetLogout (c : OIDCConfig) : LogoutConfig := if c.isNil then { isNil := true } else c.Logout
+def OIDCConfig.IdToken! (c : OIDCConfig) : M TokenConfig := if c.isNil then nilPanic else pure c.IdToken
+def OIDCConfig.AccessToken! (c : OIDCConfig) : M TokenConfig := if c.isNil then nilPanic else pure c.AccessToken
+
+/-! ### internal/authz: idpTokensResponse, oidcHandler; internal/oidc: TokenResponse -/
+
+structure IdpTokensResponse where
+  isNil : Bool := false
+  IDToken : Str := []
+  AccessToken : Str := []
+  RefreshToken : Str := []
+  ExpiresIn : Int := 0
+  TokenType : Str := []
+  deriving Repr, BEq, DecidableEq
+def IdpTokensResponse.IDToken! (r : IdpTokensResponse) : M Str := if r.isNil then nilPanic else pure r.IDToken
+def IdpTokensResponse.AccessToken! (r : IdpTokensResponse) : M Str := if r.isNil then nilPanic else pure r.AccessToken
+def IdpTokensResponse.RefreshToken! (r : IdpTokensResponse) : M Str := if r.isNil then nilPanic else pure r.RefreshToken
+def IdpTokensResponse.ExpiresIn! (r : IdpTokensResponse) : M Int := if r.isNil then nilPanic else pure r.ExpiresIn
+def IdpTokensResponse.TokenType! (r : IdpTokensResponse) : M Str := if r.isNil then nilPanic else pure r.TokenType
+
+structure TokenResponse where
+  isNil : Bool := false
+  IDToken : Str := []
+  AccessToken : Str := []
+  RefreshToken : Str := []
+  deriving Repr, BEq, DecidableEq
+def TokenResponse.IDToken! (r : TokenResponse) : M Str := if r.isNil then nilPanic else pure r.IDToken
+def TokenResponse.AccessToken! (r : TokenResponse) : M Str := if r.isNil then nilPanic else pure r.AccessToken
+def TokenResponse.RefreshToken! (r : TokenResponse) : M Str := if r.isNil then nilPanic else pure r.RefreshToken
+
+structure OidcHandler where
+  isNil : Bool := false
+  config : OIDCConfig := {}
+  deriving Repr, BEq, DecidableEq
+def OidcHandler.config! (o : OidcHandler) : M OIDCConfig := if o.isNil then nilPanic else pure o.config
+
+
 end AuthModel.Pb
